@@ -115,6 +115,58 @@ func c12Gen(seed uint64, tier string) any {
 			ops = append(ops, c12RandOp(r, nk, &next))
 		}
 		sc.Tasks = [][]MapOp{ops}
+	case 4, 5, 6:
+		// targeted: one key in a chosen internal state, every goroutine works on that key, plus one
+		// that stores a brand-new key (rebuilds the dirty map) or iterates (promotes it)
+		sc.Mode = "conc"
+		k := Pick(r, []string{"a", "b"})
+		other := "c"
+		st := func(key string) MapOp { next++; return MapOp{Op: "store", Key: key, Val: next} }
+		switch r.Intn(6) {
+		case 0: // absent
+		case 1: // only in the dirty map
+			sc.Setup = []MapOp{st(k)}
+		case 2: // live in the read map
+			sc.Setup = []MapOp{st(k), {Op: "range"}}
+		case 3: // nil entry in the read map
+			sc.Setup = []MapOp{st(k), {Op: "range"}, {Op: "del", Key: k}}
+		case 4: // expunged
+			sc.Setup = []MapOp{st(k), {Op: "range"}, {Op: "del", Key: k}, st(other)}
+		default: // read map amended, key live in both
+			sc.Setup = []MapOp{st(k), {Op: "range"}, st(other)}
+		}
+		onKey := func() MapOp {
+			switch r.Intn(7) {
+			case 0, 1:
+				next++
+				return MapOp{Op: "los", Key: k, Val: next}
+			case 2:
+				return st(k)
+			case 3:
+				return MapOp{Op: "lad", Key: k}
+			case 4:
+				return MapOp{Op: "del", Key: k}
+			default:
+				return MapOp{Op: "load", Key: k}
+			}
+		}
+		nt := r.Range(2, 3)
+		for t := 0; t < nt; t++ {
+			ops := []MapOp{onKey()}
+			if r.Bool() {
+				ops = append(ops, onKey())
+			}
+			sc.Tasks = append(sc.Tasks, ops)
+		}
+		switch r.Intn(4) {
+		case 0:
+			sc.Tasks = append(sc.Tasks, []MapOp{st(Pick(r, []string{"c", "b", "a"}))})
+		case 1:
+			sc.Tasks = append(sc.Tasks, []MapOp{{Op: Pick(r, []string{"range", "len"})}})
+		case 2:
+			sc.Tasks = append(sc.Tasks, []MapOp{{Op: "load", Key: "zz"}, {Op: "load", Key: "zz"}})
+		}
+		sc.Sched = SchedSpec{Strategy: r.Intn(2), Seed: r.U64()}
 	default:
 		sc.Mode = "conc"
 		nk := r.Range(1, 3)
@@ -835,7 +887,7 @@ func init() {
 	}
 	Register(&Check{
 		ID: "C12", Level: "exploration", Race: true,
-		QuickRuns: 30000, ThoroughRuns: 1500000,
+		QuickRuns: 100000, ThoroughRuns: 3000000,
 		Gen: c12Gen, GenIdx: genIdx, Exec: c12Exec, Shrink: c12Shrink,
 		Rule: "three families. (1) exhaustive: every sequence of Store/Load/LoadOrStore/LoadAndDelete/Delete over keys a,b plus Clear/Range/Length up to a length bound (quick 4, thorough 5), each compared operation by operation with a Go map, including the script-visible observers (dict truthiness, len(), == in both directions against a fresh dict with the same / one more pair). (2) random sequential sequences of 3-40 operations over 1-3 keys, same oracles. (3) concurrent: 2-4 goroutines x 1-5 operations over <=3 keys with unique values, after a random sequential setup, on the AST-instrumented valuemap.go (a preemption point before every statement, mutex waits as yield loops) under the seeded scheduler with the race detector on; the recorded invoke/return history (stamped with a global event counter) is checked with porcupine against a sequential map; Range is entered as one independent read per key over the call's interval (the sync.Map contract) plus no-duplicate; Length overlapping writers is bounded from the history; a quiescent final reader (Load of every key, Range, Length) goes through the model atomically. distinct = distinct (operation lists, context-switch sequence); non-trivial = at least one pair of operations of different goroutines overlapped (concurrent) / at least 3 operations (sequential)",
 		Real: []string{"valuemap.go (AST-instrumented scratch copy, logic unchanged), dict observers in types.go, under -race"},
